@@ -48,6 +48,9 @@ def models():
         "Flow(Squeeze|StandardNormal[4,1,1])": (lambda: FL.base.Flow(TR.SqueezeTransform(2), D.StandardNormal([4, 1, 1])), (1, 2, 2), "optional", False),
         # integer class labels as the context, embedded by nn.Embedding
         "Flow(affine|CondNormal)+Embedding(labels)": (lambda: FL.base.Flow(TR.PointwiseAffineTransform(shift=0.5, scale=2.0), D.ConditionalDiagonalNormal([2]), embedding_net=torch.nn.Embedding(5, 4)), (2,), "required", False),
+        # one scalar (a label, a time) per context row: a context of rank one has as many rows as elements
+        "StandardNormal[2]/rank-1 context": (lambda: D.StandardNormal([2]), (2,), "optional", False),
+        "Flow(affine|StandardNormal)/rank-1 context": (lambda: FL.base.Flow(TR.PointwiseAffineTransform(shift=0.5, scale=2.0), D.StandardNormal([2])), (2,), "optional", False),
         "StandardNormal[]": (lambda: D.StandardNormal([]), (), "optional", False),
         "StandardNormal[1]": (lambda: D.StandardNormal([1]), (1,), "optional", False),
         "Flow(affine|StandardNormal[])": (lambda: FL.base.Flow(TR.PointwiseAffineTransform(shift=0.5, scale=2.0), D.StandardNormal([])), (), "optional", False),
@@ -82,6 +85,8 @@ def make_context(torch, name, rows, event, marker):
         return torch.cat([means, torch.full((rows, d), -10.0)], dim=1)
     if "labels" in name:
         return torch.arange(rows, dtype=torch.long) % 5
+    if "rank-1" in name:
+        return torch.randn(rows)
     return torch.randn(rows, 4)
 
 
@@ -110,6 +115,20 @@ def task(t):
             out["drift"].append("%s cannot be built: %r" % (name, e))
             continue
         m.eval()
+        # n draws per context row are n draws PER ROW: two rows with the same context get their own draws
+        # (40 draws of a 2-bit event coincide by chance with probability 2^-80)
+        if cmode in ("optional", "required"):
+            out["n"] += 1
+            try:
+                torch.manual_seed(seed + 3)
+                c1 = make_context(torch, name, 1, event, marker)
+                c2 = torch.cat([c1, c1], 0)
+                with torch.no_grad():
+                    s2 = m.sample(40, context=c2)
+                if s2.shape[0] == 2 and torch.equal(s2[0], s2[1]):
+                    out["fails"].append({"model": name, "call": {"op": "sample", "n": 40, "rows": 2}, "seed": seed, "clause": "rows_share_draws", "detail": "sample(40, context) with two equal context rows returns the same 40 draws for both rows: the rows do not get draws of their own"})
+            except Exception:  # noqa  (shape / error contracts are judged below)
+                pass
         for st in states:
             call, spec = st["call"], st["out"]
             op = str(call["op"])
